@@ -23,6 +23,12 @@ pub const FAULTS: &[(&str, &str)] = &[
     ("value-out-of-range-in-data-directive", ".db 1, 70000"),
     ("branch-out-of-range", "brne pc + 5000"),
     ("undefined-macro-with-label", "here_q: frobnicate"),
+    // the same kinds of fault while another segment is current (\u{1} marks the fault line)
+    ("undefined-symbol-in-set-inside-dseg", ".dseg\n\u{1}.set sv_q = undefined_sym_q\n.cseg"),
+    ("undefined-symbol-in-data-directive-inside-eseg", ".eseg\n.db 1\n\u{1}.dw undefined_sym_q\n.cseg"),
+    ("instruction-inside-dseg", ".dseg\n\u{1}nop\n.cseg"),
+    ("undefined-symbol-in-elif", ".if 0\nnop\n\u{1}.elif undefined_sym_q\nnop\n.endif"),
+    ("undef-of-unknown-alias", ".def al_q = r20\n.undef al_q\n\u{1}.undef al_q"),
 ];
 
 #[derive(Clone, Debug)]
@@ -101,6 +107,16 @@ pub fn build_fault(c: &FaultCase) -> BuiltFault {
                     }
                 }
                 expect.push(lines.len());
+            } else if text.contains('\n') {
+                for part in text.split('\n') {
+                    match part.strip_prefix('\u{1}') {
+                        Some(f) => {
+                            lines.push(f.to_string());
+                            expect.push(lines.len());
+                        }
+                        None => lines.push(part.to_string()),
+                    }
+                }
             } else {
                 lines.push(text.to_string());
                 expect.push(lines.len());
@@ -297,6 +313,19 @@ pub fn build_msg(c: &MsgCase) -> BuiltMsg {
                 push(&mut with, &mut without, ".elif 1".into(), false);
                 msg("m", true, &mut with, &mut without, &mut expect);
                 push(&mut with, &mut without, ".else".into(), false);
+                msg("m", false, &mut with, &mut without, &mut expect);
+                push(&mut with, &mut without, ".endif".into(), false);
+            }
+            4 if a & 1 == 0 => {
+                // a negative condition is true; a nested .ifndef inside an untaken arm stays hidden
+                in_taken = true;
+                in_untaken = true;
+                push(&mut with, &mut without, format!(".if {}", ["-1", "0-3", "2-5", "~0"][(*a as usize / 2) % 4]), false);
+                msg("m", true, &mut with, &mut without, &mut expect);
+                push(&mut with, &mut without, ".else".into(), false);
+                push(&mut with, &mut without, ".ifndef never_defined_flag".into(), false);
+                msg("w", false, &mut with, &mut without, &mut expect);
+                push(&mut with, &mut without, ".endif".into(), false);
                 msg("m", false, &mut with, &mut without, &mut expect);
                 push(&mut with, &mut without, ".endif".into(), false);
             }
